@@ -31,11 +31,25 @@ def scenario(ctx, i):
     x = gen.maybe_int(r, centers[r.integers(0, K, N)] + r.normal(size=(N, D)), floats=False)
     if x.dtype.kind == "f":  # data far from the origin (un-centred features): the distortion is about spreads, not about |x|
         x = x + float(r.choice([0.0, 0.0, 0.0, 1e3, 1e6, 1e7])) * r.choice([-1.0, 1.0], size=D)
-    cent = x[r.choice(N, K, replace=False)] + 0.1 * r.normal(size=(K, D))
-    if r.random() < 0.25:  # initial centroids handed over as an integer-typed array (legal: any array-like of shape (K, D))
+    unit = 1.0
+    if x.dtype.kind == "f" and r.random() < 0.25:
+        unit = float(10.0 ** r.choice([-12.0, -9.0, -6.0, 4.0]))  # the unit of the data is arbitrary (squared distances of 1e-24 are ordinary numbers)
+        x = x * unit
+    cent = x[r.choice(N, K, replace=False)] + 0.1 * unit * r.normal(size=(K, D))
+    if unit == 1.0 and r.random() < 0.25:  # initial centroids handed over as an integer-typed array (legal: any array-like of shape (K, D))
         ci = np.rint(cent).astype(np.int64)
         if len({tuple(row) for row in ci.tolist()}) == K:
             cent = ci
+    if r.random() < 0.1:
+        # samples on a small integer lattice and initial centroids on lattice points: samples exactly equidistant from two centroids
+        # are ordinary there; any one of the nearest centroids may take such a sample, but exactly one does
+        D = int(r.integers(1, 3))
+        side = int(r.integers(3, 6))
+        pts = np.array(np.meshgrid(*[np.arange(side)] * D)).reshape(D, -1).T.astype(float)
+        x = pts[r.permutation(len(pts))]
+        N = len(x)
+        K = min(int(r.integers(2, 4)), N - 1)
+        cent = x[r.choice(N, K, replace=False)].copy()
     return dict(K=K, D=D, x=x, cent=cent, sizes=gen.random_composition(r, N), late=[None, None, "set_params", "setattr"][int(r.integers(0, 4))])
 
 
@@ -230,7 +244,30 @@ def oracle(sc, steps=4, use_dask=False):
         crit, cent, amd = fit(sc, xin, k, None)
         if isinstance(crit, core.ImplError):
             return {"sig": "fit-raises", "what": repr(crit)}
-        lab = np.argmin(sd.cdist(prev_c, x, "sqeuclidean"), axis=0)
+        dm = sd.cdist(prev_c, x, "sqeuclidean")
+        lab = np.argmin(dm, axis=0)
+        tied = (dm == dm.min(axis=0)).sum(axis=0) > 1  # exactly equidistant from two centroids (lattice data)
+        if np.any(tied) and len(set(lab[~tied].tolist())) == len(prev_c) and np.all(np.isfinite(cent)) \
+                and (len(prev_c) < 2 or margin_ok(x[~tied], prev_c)) and int(tied.sum()) <= 10:
+            # every tied sample goes to exactly one of its nearest centroids: some resolution must give the returned centroids
+            import itertools
+
+            opts = [np.flatnonzero(dm[:, j] == dm[:, j].min()) for j in np.flatnonzero(tied)]
+            ok = False
+            for choice in itertools.product(*opts):
+                l2 = lab.copy()
+                l2[np.flatnonzero(tied)] = choice
+                if core.close(cent, np.array([x[l2 == c].mean(axis=0) for c in range(len(prev_c))]), 1e-9, 1e-9):
+                    ok = True
+                    break
+            if not ok:
+                return {"sig": "centroid-is-not-cluster-mean", "what": f"iteration {k}, {int(tied.sum())} samples exactly equidistant from two centroids: {cent.tolist()} is "
+                        f"not the set of cluster means for any assignment of the tied samples to one of their nearest centroids (entering centroids {prev_c.tolist()})"}
+            J = distortion(x, cent)
+            if J > prevJ * (1 + 1e-9) + 1e-12:
+                return {"sig": "distortion-increased", "what": f"iteration {k} (with exact ties): {prevJ} -> {J}"}
+            prev_c, prevJ = cent, J
+            continue
         if len(set(lab.tolist())) < len(prev_c) or not margin_ok(x, prev_c):
             return None  # empty cluster / near tie: outside the property's guard
         if not np.all(np.isfinite(cent)):
